@@ -38,7 +38,7 @@ def overrate_cases():
 def cases(tier, seed):
     lvl = "thorough" if tier == "thorough" else "quick"
     buf = list(common.buffer_scope(lvl))
-    con = list(common.contend(lvl))[::4 if tier != "thorough" else 1]
+    con = common.thin(common.contend(lvl), 4 if tier != "thorough" else 1)
     out = common.add_algs(buf + con, lambda c: common.shipped(
         c, lvl, "diag", greedy=(tier == "thorough")), feasible_only=True)
     return common.rotate(out, seed)
@@ -52,7 +52,7 @@ def run(rep, tier, seed):
     cs = cases(tier, seed)
     # unit variant: same physical config in minutes
     extra = []
-    for sc, c in cs[::25]:
+    for sc, c in common.thin(cs, 25):
         cc = dict(c)
         cfg = dict(c["cfg"])
         cfg["timestep"] = "minutes"
